@@ -357,4 +357,4 @@ def run(ctx):
             ctx.sample({"kind": c["kind"], "text": c["text"][:300], "driver": resp[:200]}, cap=6)
         f = compare(c, impl, resp)
         if f:
-            ctx.failures.append(shrink(f))
+            ctx.fail(f, shrink)
